@@ -1,12 +1,16 @@
 /-
   C07 — errors reach the nearest matching handler and leave no residue once handled.
-  Property theorems only. Model: `execBlock`/`catchMatches` (Model/Interp.lean), transcription of
-  BEGINStatement::doit/docatch, RAISEStatement::doit, RuntimeError::THROWABLES (generated table).
+  Property theorems only (helpers: Proofs/Lemmas/Interp.lean). Model: `execBlock`/`catchMatches`/`exec`/`callFunc`
+  (Model/Interp.lean), transcription of BEGINStatement::doit/docatch, RAISEStatement::doit,
+  RuntimeError::THROWABLES (generated table), Context::onRuntimeError (loops of the interrupted region are
+  unstacked: `forallExit`), FunctorExpression::value. Clause table: notes/NOTES-p0608.md.
+  Not modelled at this level: `error@1/@2` (no expression node for it in Model/Interp.lean), the interactive runner.
 -/
 import BlocV.Model.Interp
+import BlocV.Proofs.Lemmas.Interp
 
 namespace BlocV.C07
-open BlocV
+open BlocV BlocV.Lemmas
 
 /-- The catchable built-in errors are exactly OUT_OF_RANGE and DIVIDE_BY_ZERO (generated from
 `RuntimeError::THROWABLES` on every run). -/
@@ -105,4 +109,152 @@ example : catchMatches "E1" Gen.EXC_RT_USER_S (nameBytes "E1") = true := by deci
 example : catchMatches "E1" Gen.EXC_RT_USER_S (nameBytes "E2") = false := by decide
 example : catchMatches "OTHERS" Gen.EXC_RT_STRING_TO_NUM [] = false := by decide
 
+
+
+/-- A `begin` statement is its block, run after one unit of the work budget is consumed. -/
+theorem exec_begin (funcs : List Func) (depth fuel : Nat) (body : List Stmt) (catches : List (String × List Stmt)) (s : St)
+    (hbud : s.budget ≠ 0) :
+    exec funcs depth (fuel + 1) (.beginS body catches) s = execBlock funcs depth fuel body catches (tick s) := by
+  have hbud' : (s.budget == 0) = false := by simpa using hbud
+  simp only [exec, hbud', Bool.false_eq_true, if_false]
+  rfl
+
+/-- **Nearest enclosing handler, inner block without a matching clause**: an error raised in the body of an inner block
+that has no matching `when` clause leaves that block unchanged and is handled by the FIRST matching clause of the next
+enclosing block, from the state the error left; the statements after the inner block do not run. -/
+theorem inner_unmatched_reaches_outer (funcs : List Func) (depth fuel : Nat) (ibody rest : List Stmt)
+    (icatches ocatches : List (String × List Stmt)) (s s' : St) (c : Nat) (a : Bytes) (n : String) (h : List Stmt)
+    (hbud : s.budget ≠ 0)
+    (hb : execList funcs depth fuel ibody (tick s) = (.err c a, s')) (hc : (c == oofCode) = false)
+    (hin : icatches.find? (fun cl => catchMatches cl.1 c a) = none)
+    (hout : ocatches.find? (fun cl => catchMatches cl.1 c a) = some (n, h)) :
+    execBlock funcs depth (fuel + 4) (.beginS ibody icatches :: rest) ocatches s = execList funcs depth (fuel + 3) h s' := by
+  have h1 : execBlock funcs depth (fuel + 1) ibody icatches (tick s) = (.err c a, s') :=
+    unmatched_propagates funcs depth fuel ibody icatches _ s' c a hb hc hin
+  have h2 : exec funcs depth (fuel + 2) (.beginS ibody icatches) s = (.err c a, s') := by
+    rw [exec_begin funcs depth (fuel + 1) ibody icatches s hbud, h1]
+  have h3 : execList funcs depth (fuel + 3) (.beginS ibody icatches :: rest) s = (.err c a, s') := by
+    simp only [execList, bind_app, h2]
+  exact handler_selection funcs depth (fuel + 3) _ ocatches s s' c a n h h3 hc hout
+
+/-- **Nearest enclosing handler, inner block with a matching clause**: the inner block's first matching clause runs;
+the enclosing block only sees the outcome of that handler (a value, a Flow, or a new error raised by the handler). -/
+theorem inner_matching_handles (funcs : List Func) (depth fuel : Nat) (ibody : List Stmt)
+    (icatches : List (String × List Stmt)) (s s' : St) (c : Nat) (a : Bytes) (n : String) (h : List Stmt)
+    (hbud : s.budget ≠ 0)
+    (hb : execList funcs depth fuel ibody (tick s) = (.err c a, s')) (hc : (c == oofCode) = false)
+    (hin : icatches.find? (fun cl => catchMatches cl.1 c a) = some (n, h)) :
+    exec funcs depth (fuel + 2) (.beginS ibody icatches) s = execList funcs depth fuel h s' := by
+  rw [exec_begin funcs depth (fuel + 1) ibody icatches s hbud]
+  exact handler_selection funcs depth fuel ibody icatches _ s' c a n h hb hc hin
+
+/-- **An error inside a called function reaches the caller's block**: when the callee's own block (body + its `exception`
+clauses, which get the first chance) ends with error (c, a), the call expression fails with (c, a) in the caller — whose
+variables are untouched, only output and budget are carried over —, the statement containing the call fails, and the first
+matching clause of the caller's enclosing block runs. -/
+theorem error_in_callee_reaches_callers_block (funcs : List Func) (depth fuel : Nat) (name : String) (args : List Expr)
+    (rest : List Stmt) (catches : List (String × List Stmt)) (s s1 sc : St) (f : Func) (vals : List Val)
+    (c : Nat) (a : Bytes) (n : String) (h : List Stmt) (hbud : s.budget ≠ 0)
+    (hf : funcs.find? (fun f => f.name == name && f.params.length == args.length) = some f)
+    (hd : (depth == Gen.RECURSION_LIMIT) = false)
+    (ha : evalArgs funcs depth fuel args (tick s) = (.ok vals, s1))
+    (hcallee : execBlock funcs (depth + 1) fuel f.body f.catches (calleeInit f vals s1) = (.err c a, sc))
+    (hc : (c == oofCode) = false)
+    (hm : catches.find? (fun cl => catchMatches cl.1 c a) = some (n, h)) :
+    execBlock funcs depth (fuel + 5) (.doS (.fcall name args) :: rest) catches s =
+      execList funcs depth (fuel + 4) h { s1 with out := sc.out, budget := sc.budget } := by
+  have hbud' : (s.budget == 0) = false := by simpa using hbud
+  have h1 : callFunc funcs depth (fuel + 1) name args (tick s) = (.err c a, { s1 with out := sc.out, budget := sc.budget }) := by
+    rw [callFunc_unfold funcs depth fuel name args _ s1 f vals hf hd ha, hcallee]
+    rfl
+  have h2 : exec funcs depth (fuel + 3) (.doS (.fcall name args)) s = (.err c a, { s1 with out := sc.out, budget := sc.budget }) := by
+    unfold tick at h1
+    simp only [exec, hbud', Bool.false_eq_true, if_false, bind_app, eval, h1]
+  have h3 : execList funcs depth (fuel + 4) (.doS (.fcall name args) :: rest) s = (.err c a, { s1 with out := sc.out, budget := sc.budget }) := by
+    simp only [execList, bind_app, h2]
+  exact handler_selection funcs depth (fuel + 4) _ catches s _ c a n h h3 hc hm
+
+/-- **No residue: control stack.** Whatever a block does — ends normally, with break/continue/return, handles an error in a
+`when` clause (also when that handler fails in turn), or lets an error through — the stack of running `forall` loops after the
+block is entry by entry (iterator name, traversed variable, index, saved type, lock flag) the one before it: every loop entered
+inside the interrupted region has been closed, no iterator constraint and no table lock is left behind. Holds for every fuel and
+outcome, incl. hazards and out-of-fuel. (Model of `Context::onRuntimeError` + `unstackControl`; mutual induction
+`Lemmas.sameIters_all`.) -/
+theorem no_residue_control_stack (funcs : List Func) (depth fuel : Nat) (body : List Stmt) (catches : List (String × List Stmt)) (s : St) :
+    (execBlock funcs depth fuel body catches s).2.iters.map iterKey = s.iters.map iterKey :=
+  ((sameIters_all funcs fuel).2.2.2.1 depth body catches).h s
+
+/-- The same for a whole program handed to `Executable::run` (handled, reported or no error at all): a run that starts with an
+empty control stack ends with an empty control stack. -/
+theorem no_residue_after_run (funcs : List Func) (depth fuel : Nat) (prog : List Stmt) (s : St) (h0 : s.iters = []) :
+    (execList funcs depth fuel prog s).2.iters = [] := by
+  have := ((sameIters_all funcs fuel).2.2.2.2.1 depth prog).h s
+  unfold SameIters at this
+  rw [h0] at this
+  simpa using this
+
+/-- **No residue: pending break / continue / return.** In the model a pending condition is not state at all: it is the `Flow`
+value a statement returns (`St` has no flag field — only `returned`, the value saved by `return`, which is read only together
+with a `ret` Flow). So after a handled error the only pending condition is the one the handler itself produced: the block's
+Flow IS the handler's Flow, and the interrupted body's conditions are gone with its (error) result. -/
+theorem handled_flow_is_handlers_flow (funcs : List Func) (depth fuel : Nat) (body : List Stmt) (catches : List (String × List Stmt))
+    (s s' : St) (c : Nat) (a : Bytes) (n : String) (h : List Stmt)
+    (hb : execList funcs depth fuel body s = (.err c a, s')) (hc : (c == oofCode) = false)
+    (hm : catches.find? (fun cl => catchMatches cl.1 c a) = some (n, h)) :
+    (execBlock funcs depth (fuel + 1) body catches s).1 = (execList funcs depth fuel h s').1 := by
+  rw [handler_selection funcs depth fuel body catches s s' c a n h hb hc hm]
+
+/-- **The same context runs further code**: when the handler ends normally, execution continues with the statement after the
+block, from the handler's final state — an ordinary state (variables assigned before the error keep their values, output
+printed so far stays), nothing else is remembered. -/
+theorem continues_after_handled (funcs : List Func) (depth fuel : Nat) (body rest : List Stmt) (catches : List (String × List Stmt))
+    (s s' s2 : St) (c : Nat) (a : Bytes) (n : String) (h : List Stmt) (hbud : s.budget ≠ 0)
+    (hb : execList funcs depth fuel body (tick s) = (.err c a, s')) (hc : (c == oofCode) = false)
+    (hm : catches.find? (fun cl => catchMatches cl.1 c a) = some (n, h))
+    (hh : execList funcs depth fuel h s' = (.ok .norm, s2)) :
+    execList funcs depth (fuel + 3) (.beginS body catches :: rest) s = execList funcs depth (fuel + 2) rest s2 := by
+  have h1 := inner_matching_handles funcs depth fuel body catches s s' c a n h hbud hb hc hm
+  rw [hh] at h1
+  simp only [execList, bind_app, h1, beq_self_eq_true, if_true, evalM_ite_app]
+
+/-- `raise NAME` for a user-defined name fails with the user code and the name as argument; for the two built-in throwable names
+with their own code (RAISEStatement::doit). Nothing else changes (one unit of budget). -/
+theorem raise_outcome (funcs : List Func) (depth fuel : Nat) (name : String) (s : St) (hbud : s.budget ≠ 0) :
+    exec funcs depth (fuel + 1) (.raiseS name) s =
+      if findThrowable name == Gen.EXC_RT_USER_S then (.err Gen.EXC_RT_USER_S (nameBytes name), tick s)
+      else (.err (findThrowable name) [], tick s) := by
+  have hbud' : (s.budget == 0) = false := by simpa using hbud
+  simp only [exec, hbud', Bool.false_eq_true, if_false]
+  split <;> simp_all [failE, tick]
+
+/-- A user-raised name is matched by the clause of the same name (and by `others`, see `others_matches_iff`). -/
+theorem user_raise_matches_same_name (n : String) (h : findThrowable n = Gen.EXC_RT_USER_S) :
+    catchMatches n Gen.EXC_RT_USER_S (nameBytes n) = true := by
+  unfold catchMatches; simp [h]
+
+/-- … and by no clause with a different (user) name. -/
+theorem user_raise_not_matched_by_other_name (n m : String) (hn : findThrowable n = Gen.EXC_RT_USER_S)
+    (hne : nameBytes n ≠ nameBytes m) (ho : (n == "OTHERS") = false) :
+    catchMatches n Gen.EXC_RT_USER_S (nameBytes m) = false := by
+  unfold catchMatches; simp [hn, ho, hne]
+
+/-- `begin begin raise E1; exception when E2 then print "inner"; end; print "skipped"; exception when E1 then print "outer"; end; print "after";`:
+the inner block has no clause for E1, the outer one handles it; what follows runs normally. -/
+example : (execList [] 0 20 [.beginS [.beginS [.raiseS "E1"] [("E2", [.printS [.lit (.str [105])]])], .printS [.lit (.str [115])]]
+      [("E1", [.printS [.lit (.str [111])]])], .printS [.lit (.str [97])]] {}).2.out = [[10], [97], [10], [111]] := by decide +kernel
+
+/-- an error raised inside nested loops inside a block: handled, loops closed (empty control stack), and the iterator name can be assigned again -/
+example : (let r := execList [] 0 20 [.beginS [.forallS "e" (.var "t") .auto [.whileS (.lit (.bool true)) [.raiseS "X"]]] [("X", [.nop])],
+      .letS "e" (.lit (.str [104]))] { vars := [("t", .tab { major := .int, level := 1 } [] [.int 1, .int 2])] }
+    (r.1, r.2.iters.length, lookupVar r.2.vars "e" == .str [104])) = (.ok .norm, 0, true) := by decide +kernel
+
+/-- a function that raises, called inside a block of the caller: the caller's clause runs, the caller's variable `x` is untouched -/
+example : (let f : Func := { name := "f", params := [], ret := Ty.none, body := [.raiseS "BOOM"], catches := [] }
+    let r := execList [f] 0 20 [.letS "x" (.lit (.int 1)), .beginS [.doS (.fcall "f" [])] [("BOOM", [.printS [.var "x"]])]] {}
+    (r.1, r.2.out)) = (.ok .norm, [[10], [49]]) := by decide +kernel
+
+/-- DIVIDE_BY_ZERO inside a function inside a loop, caught by `others` in the caller -/
+example : (let f : Func := { name := "f", params := [("a", Ty.int)], ret := Ty.int, body := [.returnS (some (.bin .div (.lit (.int 1)) (.var "a")))], catches := [] }
+    let r := execList [f] 0 30 [.beginS [.forS "i" (.lit (.int 1)) (.lit (.int 0)) none .auto [.doS (.fcall "f" [.var "i"])]] [("OTHERS", [.printS [.var "i"]])]] {}
+    (r.1, r.2.out)) = (.ok .norm, [[10], [48]]) := by decide +kernel
 end BlocV.C07
